@@ -103,10 +103,12 @@ fn read_cur(path: &Path) -> Option<Vec<u8>> {
 /// Run one case through the property, with panic capture and known-finding tolerance.
 pub fn run_one(prop: &dyn Prop, data: &[u8], cx: &mut Ctx) -> (R, usize) {
     let mut ch = Choices::new(data);
+    watch_begin("choices", data);
     let r = match catch("case", || prop.run_case(&mut ch, cx)) {
         Ok(r) => r,
         Err(e) => Err(e),
     };
+    LAST_CASE_MS.with(|c| c.set(watch_end()));
     let used = ch.consumed().len();
     let r = match r {
         Ok(()) => Ok(()),
@@ -115,8 +117,13 @@ pub fn run_one(prop: &dyn Prop, data: &[u8], cx: &mut Ctx) -> (R, usize) {
     (r, used)
 }
 
+thread_local! {
+    static LAST_CASE_MS: std::cell::Cell<u64> = const { std::cell::Cell::new(0) };
+}
+
 fn account(stats: &mut Stats, cx: &Ctx, known: &[Known], data_used: &[u8]) {
     stats.evaluations += 1;
+    stats.max_case_ms = stats.max_case_ms.max(LAST_CASE_MS.with(|c| c.get()));
     if cx.nontrivial {
         stats.nontrivial_total += 1;
         stats.nt_hashes.insert(fnv64(data_used));
@@ -157,6 +164,7 @@ pub fn load_replay(path: &Path) -> Option<(String, String, Vec<u8>)> {
 /// The worker thread body.
 fn worker_thread(prop: &'static dyn Prop, tier: Tier, seed: u64, t: usize, nthreads: usize, known: &[Known], curdir: &Path) -> Stats {
     let dev = cfg!(debug_assertions);
+    watch_register(t);
     let mut stats = Stats::default();
     let mut cur = CurFile::new(&curdir.join(format!("{}.{}.{}.cur", prop.id(), profile_name(), t)));
 
@@ -207,6 +215,11 @@ fn worker_thread(prop: &'static dyn Prop, tier: Tier, seed: u64, t: usize, nthre
     // thorough: the per-property base counts times 10 (minutes per property on 16 cores)
     let thorough_scale: u64 = if prop.id() == "C03" { 2 } else { 10 };
     let total = prop.cases(tier, dev) * if tier == Tier::Quick { quick_scale } else { thorough_scale };
+    // internal knob (coverage measurements, smoke runs): percentage of the tier's random cases
+    let total = match std::env::var("VERIF_CASE_SCALE_PCT").ok().and_then(|s| s.parse::<u64>().ok()) {
+        Some(p) => (total * p / 100).max(1),
+        None => total,
+    };
     let cases = (total / nthreads as u64) + if (t as u64) < total % nthreads as u64 { 1 } else { 0 };
     if cases == 0 {
         return stats;
@@ -294,6 +307,7 @@ fn stats_to_json(s: &Stats) -> Value {
         "failures": s.failures.iter().map(|(f, p)| json!({"sig": f.sig, "detail": f.detail, "replay": p})).collect::<Vec<_>>(),
         "exhaustive_complete": s.exhaustive_complete,
         "notes": s.notes,
+        "max_case_ms": s.max_case_ms,
     })
 }
 
@@ -310,6 +324,36 @@ pub fn worker_main(prop: &'static dyn Prop, tier: Tier, seed: u64, nthreads: usi
     let _ = std::fs::create_dir_all(&curdir);
     let start = Instant::now();
     let mut merged = Stats::default();
+    // hang monitor: a case that has been running for HANG_REPORT_SECS is written next to the result file; the parent
+    // replays it in a fresh process and decides (the worker itself carries on)
+    let hang_path = PathBuf::from(format!("{}.hang.json", out.display()));
+    let _ = std::fs::remove_file(&hang_path);
+    let done = std::sync::Arc::new(std::sync::atomic::AtomicBool::new(false));
+    {
+        let done = done.clone();
+        let hang_path = hang_path.clone();
+        let pid = prop.id();
+        std::thread::spawn(move || {
+            use std::sync::atomic::Ordering::SeqCst;
+            while !done.load(SeqCst) {
+                std::thread::sleep(Duration::from_millis(250));
+                let now = now_ms();
+                for (i, s) in WATCH.iter().enumerate() {
+                    let t0 = s.since_ms.load(SeqCst);
+                    if t0 != 0 && now.saturating_sub(t0) > HANG_REPORT_SECS * 1000 && !s.reported.swap(true, SeqCst) && !hang_path.exists() {
+                        if let Ok(g) = s.info.lock() {
+                            let v = json!({"property": pid, "mode": g.0, "profile": profile_name(), "data": hex(&g.1), "thread": i,
+                                "signature": "hang", "detail": format!("case still running after {} s", HANG_REPORT_SECS)});
+                            let tmp = PathBuf::from(format!("{}.tmp", hang_path.display()));
+                            if std::fs::write(&tmp, v.to_string()).is_ok() {
+                                let _ = std::fs::rename(&tmp, &hang_path);
+                            }
+                        }
+                    }
+                }
+            }
+        });
+    }
     std::thread::scope(|sc| {
         let mut hs = Vec::new();
         for t in 0..nthreads {
@@ -329,6 +373,7 @@ pub fn worker_main(prop: &'static dyn Prop, tier: Tier, seed: u64, nthreads: usi
             }
         }
     });
+    done.store(true, std::sync::atomic::Ordering::SeqCst);
     let mut v = stats_to_json(&merged);
     v["wall_s"] = json!(start.elapsed().as_secs_f64());
     v["profile"] = json!(profile_name());
@@ -347,6 +392,18 @@ pub fn replay_main(prop: &'static dyn Prop, path: &Path, raw: bool) -> i32 {
             None => ("choices".to_string(), std::fs::read(path).expect("read replay")),
         }
     };
+    let (tx, rx) = std::sync::mpsc::channel::<()>();
+    let pid = prop.id();
+    let shown = path.display().to_string();
+    // a replayed case that does not terminate is reported instead of hanging the replay
+    std::thread::spawn(move || {
+        if rx.recv_timeout(Duration::from_secs(HANG_CONFIRM_SECS + 60)).is_err() {
+            println!("signature: hang");
+            println!("detail: the case did not finish within {} s", HANG_CONFIRM_SECS + 60);
+            println!("VIOLATION property={} replay={}", pid, shown);
+            std::process::exit(1);
+        }
+    });
     let res = std::thread::Builder::new()
         .stack_size(16 << 20)
         .spawn(move || {
@@ -368,6 +425,7 @@ pub fn replay_main(prop: &'static dyn Prop, path: &Path, raw: bool) -> i32 {
         })
         .unwrap()
         .join();
+    let _ = tx.send(());
     match res {
         Ok(Ok(())) => {
             println!("REPLAY-OK property={} profile={} file={}", prop.id(), profile_name(), path.display());
@@ -385,6 +443,11 @@ pub fn replay_main(prop: &'static dyn Prop, path: &Path, raw: bool) -> i32 {
         }
     }
 }
+
+/// A case still running after this many seconds is handed to the parent, which replays it alone ...
+pub const HANG_REPORT_SECS: u64 = 30;
+/// ... and reports non-termination if the replay does not finish within this many seconds either.
+pub const HANG_CONFIRM_SECS: u64 = 120;
 
 struct Child {
     profile: &'static str,
@@ -449,11 +512,36 @@ pub fn parent_main(prop: &'static dyn Prop, tier: Tier, seed: u64) -> i32 {
     let mut results: Vec<(&'static str, Value)> = Vec::new();
     let mut violations: Vec<(String, String, String)> = Vec::new(); // sig, detail, replay
     let mut inconclusive: Vec<String> = Vec::new();
+    let mut slow_notes: Vec<String> = Vec::new();
     for mut c in children {
+        let hang_path = PathBuf::from(format!("{}.hang.json", c.out.display()));
+        let mut hang_confirmed = false;
         let status = loop {
             match c.child.try_wait() {
                 Ok(Some(st)) => break Some(st),
                 Ok(None) => {
+                    if hang_path.exists() {
+                        // a case has been running for HANG_REPORT_SECS: does it also fail to finish in a fresh process?
+                        if let Some((_p, mode, data)) = load_replay(&hang_path) {
+                            let f = Failure { sig: format!("hang/{}", mode), detail: format!("the case did not finish within {} s in the {} worker nor within {} s replayed alone in a fresh process", HANG_REPORT_SECS, c.profile, HANG_CONFIRM_SECS) };
+                            let path = write_replay(prop.id(), &mode, c.profile, &data, &f);
+                            match run_replay_probe(c.profile, prop.id(), Path::new(&path), &root, HANG_CONFIRM_SECS) {
+                                Err(()) => {
+                                    violations.push((f.sig, f.detail, path));
+                                    hang_confirmed = true;
+                                    let _ = c.child.kill();
+                                    let _ = c.child.wait();
+                                    let _ = std::fs::remove_file(&hang_path);
+                                    break None;
+                                }
+                                _ => {
+                                    let _ = std::fs::remove_file(&path);
+                                    slow_notes.push(format!("{}: a case ran for more than {} s in the worker but finished when replayed alone (machine load)", c.profile, HANG_REPORT_SECS));
+                                }
+                            }
+                        }
+                        let _ = std::fs::remove_file(&hang_path);
+                    }
                     if start.elapsed() > limit {
                         let _ = c.child.kill();
                         let _ = c.child.wait();
@@ -465,6 +553,7 @@ pub fn parent_main(prop: &'static dyn Prop, tier: Tier, seed: u64) -> i32 {
             }
         };
         match status {
+            None if hang_confirmed => {}
             None => inconclusive.push(format!("{} worker exceeded the watchdog", c.profile)),
             Some(st) if st.success() => match std::fs::read_to_string(&c.out).ok().and_then(|t| serde_json::from_str::<Value>(&t).ok()) {
                 Some(v) => results.push((c.profile, v)),
@@ -517,8 +606,10 @@ pub fn parent_main(prop: &'static dyn Prop, tier: Tier, seed: u64) -> i32 {
     let mut known_hits: BTreeMap<String, u64> = BTreeMap::new();
     let mut per_profile = serde_json::Map::new();
     let mut complete: Vec<String> = Vec::new();
-    let mut notes: Vec<String> = Vec::new();
+    let mut notes: Vec<String> = slow_notes;
+    let mut max_case_ms = 0u64;
     for (p, v) in &results {
+        max_case_ms = max_case_ms.max(v["max_case_ms"].as_u64().unwrap_or(0));
         let ev = v["evaluations"].as_u64().unwrap_or(0);
         let dn = v["distinct_nontrivial"].as_u64().unwrap_or(0);
         evaluations += ev;
@@ -604,6 +695,7 @@ pub fn parent_main(prop: &'static dyn Prop, tier: Tier, seed: u64) -> i32 {
             "per_profile": per_profile,
             "excluded_by_known_finding": known_hits,
             "notes": notes,
+            "longest_case_ms": max_case_ms,
         },
         "assumptions": prop.assumptions(),
         "wall_s": wall,
